@@ -294,6 +294,19 @@ def rule_e(ctx):
                     ea, eb = norm(b.canon(src[1]["a"])), norm(b.canon(src[1]["b"]))
                     if "colspan" in ea + eb and "0_usize" in (ea, eb):
                         gov = True
+            if not gov:
+                # the same test written as an iterator filter: `cells_mut().filter(|c| c.colspan == 0)`
+                filt = [t2 for _b2, t2 in b.calls(lambda cd, t2: callee_method(t2) == "next" and "Filter<" in ((t2.get("callee") or {}).get("self_ty") or ""))
+                        if b.dominates(_b2, bb)]
+                if filt:
+                    for (_cbb, _i, cb2, _ops, _fields) in closure_bodies_created_in(F, b):
+                        for x in cb2.reachable():
+                            for st2 in cb2.stmts(x):
+                                rv2 = st2.get("rv") or {}
+                                if rv2.get("bin") == "Eq" and st2["lhs"]["l"] == 0:
+                                    ea, eb = norm(cb2.canon(rv2["a"])), norm(cb2.canon(rv2["b"]))
+                                    if "colspan" in ea + eb and "0_usize" in (ea, eb):
+                                        gov = True
             ctx.check(okc and gov, "C06-E", "tbody:colspan-0-replaced-by>=1", st["span"], fn_key(b), "colspan := %s" % ex)
     # RenderTable::new: inserted positions vs looked-up positions
     b = F.one("RenderTable::new")
